@@ -5614,6 +5614,25 @@ func (t throwConst) exec(vm *vm) {
 	vm.throw(t.v)
 }
 
+// throwIntrinsicError throws a new %TypeError% / %RangeError% (the result of folding a constant expression that throws).
+type throwIntrinsicError struct {
+	rangeError bool
+	hasMsg     bool
+	msg        string
+}
+
+func (t *throwIntrinsicError) exec(vm *vm) {
+	ctor := vm.r.getTypeError()
+	if t.rangeError {
+		ctor = vm.r.getRangeError()
+	}
+	if t.hasMsg {
+		vm.throw(vm.r.newError(ctor, t.msg))
+	} else {
+		vm.throw(vm.r.builtin_new(ctor, nil))
+	}
+}
+
 type resolveThisStack struct{}
 
 func (r resolveThisStack) exec(vm *vm) {
